@@ -443,6 +443,7 @@ func (o *c09Oracle) clear(st cache.Stats) {
 // ---- running the real cache
 
 type c09Runner struct {
+	quiet  bool // second run: no Stats / snapshot calls that the script does not contain
 	arena  *c09Arena
 	keys   map[string][]byte
 	c      cache.Cache
@@ -499,6 +500,10 @@ func (r *c09Runner) obs() (string, cache.Stats) {
 }
 
 func (r *c09Runner) emit(ev string) cache.Stats {
+	if r.quiet {
+		r.events = append(r.events, ev)
+		return cache.Stats{}
+	}
 	o, st := r.obs()
 	r.events = append(r.events, ev+"@"+o)
 	return st
@@ -569,12 +574,15 @@ func (r *c09Runner) runOps(ops []c09Op) {
 			if len(k) == 0 {
 				k = nil // Set passes an empty non-nil key, Get and Del a nil one
 			}
-			before := r.c.Stats()
+			var before cache.Stats
+			if !r.quiet {
+				before = r.c.Stats()
+			}
 			ret := r.c.Get(k)
 			ev := "G=nil"
 			if len(ret) > 0 {
 				ev = "G=" + hx(ret)
-			} else if r.c.Stats().Hit > before.Hit {
+			} else if !r.quiet && r.c.Stats().Hit > before.Hit {
 				// no bytes came back: a stored empty (or nil) value and an absent key look the
 				// same to the caller; the hit counter tells which one the cache meant
 				ev = "G=" + hx(nil)
@@ -622,6 +630,51 @@ func evalC09(line string) Result {
 	impl := strings.Join(r.events, ";")
 	direct := "ok"
 	or := r.or
+	if panicked == "" && or.failure == "" && len(r.events) > 0 {
+		// The same script once more on a fresh cache, without the Stats and snapshot calls the
+		// run above makes after every event (they are calls too; a cache that keeps something
+		// from one call to the next may behave differently when nobody looks): the results of
+		// the script's own calls and the final state must be the same.
+		q := &c09Runner{or: newC09Oracle(cs), quiet: true} // this oracle's verdicts are not read
+		qconf := conf
+		if cs.cb {
+			qconf.OnDelete = q.onDelete
+		}
+		q.c = cache.New(qconf)
+		qpan := ""
+		func() {
+			defer func() {
+				if v := recover(); v != nil {
+					qpan = strings.ReplaceAll(fmt.Sprint(v), "\n", "\\n")
+				}
+			}()
+			q.placeKeys(cs.ops)
+			q.arena.buf = append(q.arena.buf, 0xEE)
+			q.runOps(cs.ops)
+		}()
+		strip := func(ev string) string {
+			ev, _, _ = strings.Cut(ev, "@")
+			if ev == "G="+hx(nil) {
+				ev = "G=nil" // a stored empty value: told from a miss only by the counters
+			}
+			return ev
+		}
+		var seen []string
+		for _, ev := range r.events {
+			seen = append(seen, strip(ev))
+		}
+		q.quiet = false
+		last, _ := q.obs()
+		_, lastSeen, _ := strings.Cut(r.events[len(r.events)-1], "@")
+		switch {
+		case qpan != "":
+			direct = fail("unobserved-run", "the script without the harness's Stats/snapshot calls panicked: %s", qpan)
+		case strings.Join(q.events, ";") != strings.Join(seen, ";"):
+			direct = fail("unobserved-run", "results without the harness's Stats/snapshot calls between the operations: %s; with them: %s", strings.Join(q.events, ";"), strings.Join(seen, ";"))
+		case last != lastSeen:
+			direct = fail("unobserved-run", "final state without the harness's Stats/snapshot calls between the operations: %s; with them: %s", last, lastSeen)
+		}
+	}
 	var labels []string
 	if panicked != "" {
 		// the mutex may still be held by the call that panicked: stop here
